@@ -9,6 +9,7 @@ License: 3-clause BSD. (See the COPYRIGHT file)
 
 from __future__ import annotations
 
+from exabgp.logger import lazymsg, log
 from struct import pack
 from typing import TYPE_CHECKING, Generator
 
@@ -384,7 +385,11 @@ class MPNLRICollection:
                 # Check if adding this NLRI would exceed maximum
                 if self._attr_len(len(payload) + len(packed_nlri)) > maximum:
                     if len(payload) == header_length:
-                        raise RuntimeError('NLRI too large for attribute size limit')
+                        # the other attributes leave no room for even this one NLRI: it can not be sent.
+                        # UpdateCollection.messages() skips IPv4 NLRI in the same situation; raising here
+                        # killed the peer task and the session with it
+                        log.critical(lazymsg('update.pack.error reason=attributes_too_large'), 'parser')
+                        continue
                     # Yield current payload and start new one
                     yield self._attribute_header(self._CODE_MP_REACH_NLRI, len(payload)) + payload
                     payload = header + packed_nlri
@@ -432,7 +437,8 @@ class MPNLRICollection:
             # Check if adding this NLRI would exceed maximum
             if self._attr_len(len(payload) + len(packed_nlri)) > maximum:
                 if len(payload) == header_length:
-                    raise RuntimeError('NLRI too large for attribute size limit')
+                    log.critical(lazymsg('update.pack.error reason=attributes_too_large'), 'parser')
+                    continue
                 # Yield current payload and start new one
                 yield self._attribute_header(self._CODE_MP_UNREACH_NLRI, len(payload)) + payload
                 payload = header + packed_nlri
